@@ -89,7 +89,7 @@ def units(tier, seed):
         for gens in (1, 2, 3):
             for sk in ("simple", "nbc"):
                 descs.append(dict(engines=list(eng), gens=gens, obj=("sphere_in", "twofunnel", "plateau")[k % 3], Mh=3, seed=s, sprout={"kind": sk, "L": 2}, observing_gsc=bool(k % 2),
-                                  maximize=bool(k % 2), pmut=(1.0, 0.5)[k % 2]))
+                                  maximize=bool(k % 2), pmut=(1.0, 0.5)[k % 2], hib=bool(k % 5 == 0)))
     us = [{"kind": "run", "descs": c} for c in chunks(descs, 30)]
     rsh = rep_shapes() if tier == "quick" else rep_shapes() + [list(e) for e in shapes_h2()[::3]]
     for k, eng in enumerate(rsh):
